@@ -20,6 +20,9 @@ type cfg struct {
 	Depth    int    `json:"depth"`
 	Faults   int    `json:"fault_budget"` // E3 faults (crash-before / crash-after / error at one storage call, then restart) per history
 	MaxEpoch int    `json:"max_clock_epoch"`
+	// Lookahead > 0 leaves the property's quantifier (targets / slots beyond the clock at signing
+	// time). Never set by a tier; only by the VERIF_C04_LOOKAHEAD experiment switch.
+	Lookahead int `json:"lookahead,omitempty"`
 }
 
 var faultModes = []string{"crash-before", "crash-after", "error"}
@@ -32,14 +35,14 @@ func menu(w *world, c cfg) []op {
 			m = append(m, op{K: "add", Sh: sh}, op{K: "remove", Sh: sh}, op{K: "reactivate", Sh: sh})
 		}
 		for sh := 0; sh < c.Shares; sh++ {
-			for t := 1; t <= w.epoch(); t++ {
+			for t := 1; t <= w.epoch()+c.Lookahead; t++ {
 				for s := 0; s < t; s++ {
 					for v := 0; v < 2; v++ {
 						m = append(m, op{K: "att", Sh: sh, S: s, T: t, V: v})
 					}
 				}
 			}
-			for slot := 0; slot <= int(w.clock); slot++ {
+			for slot := 0; slot <= int(w.clock)+c.Lookahead; slot++ {
 				for v := 0; v < 2; v++ {
 					m = append(m, op{K: "blk", Sh: sh, Slot: slot, V: v})
 				}
